@@ -641,12 +641,155 @@ func c20Worker(tier string, from int) int {
 	return 0
 }
 
+// c20RepeatKinds are client requests that fail somewhere along a distributed generation; each is sent c20Repeats times in a
+// row (more often than any pool, table or buffer of a few dozen entries is large) to a cluster of three real instances
+// that talk over the real gRPC transport (real API servers, real sender with its connection pools), and afterwards an
+// ordinary generation must still be answered.
+var c20RepeatKinds = []string{"name refused when the account is stored", "name already held", "threshold without majority", "unknown wallet", "more participants than peers"}
+
+const c20Repeats = 40
+
+// c20RepeatChild runs the repeat phase; prints REPEAT-BEGIN/REPEAT-END lines so that the parent can tell a hang or a
+// crash from a refusal.
+func c20RepeatChild(tier string) int {
+	rig.Init()
+	out := bufio.NewWriter(os.Stdout)
+	say := func(f string, a ...any) { fmt.Fprintf(out, f+"\n", a...); out.Flush() }
+	c, err := rig.NewNetCluster([]uint64{1, 2, 3})
+	if err != nil {
+		say("WORKER-ERROR %v", err)
+		return 2
+	}
+	defer c.Close()
+	if _, err := c.Generate(1, rig.DistWallet+"/held", 2, 3); err != nil {
+		say("WORKER-ERROR baseline generation over the network failed: %v", err)
+		return 2
+	}
+	serial := 0
+	for ki, kind := range c20RepeatKinds {
+		say("REPEAT-BEGIN %d", ki)
+		answered := 0
+		for i := 0; i < c20Repeats; i++ {
+			serial++
+			done := make(chan error, 1)
+			go func() {
+				var err error
+				switch kind {
+				case "name refused when the account is stored":
+					_, err = c.Generate(1, fmt.Sprintf("%s/_x%d", rig.DistWallet, serial), 2, 3)
+				case "name already held":
+					_, err = c.Generate(1, rig.DistWallet+"/held", 2, 3)
+				case "threshold without majority":
+					_, err = c.Generate(1, fmt.Sprintf("%s/t%d", rig.DistWallet, serial), 1, 3)
+				case "unknown wallet":
+					_, err = c.Generate(1, fmt.Sprintf("Nowhere/u%d", serial), 2, 3)
+				case "more participants than peers":
+					_, err = c.Generate(1, fmt.Sprintf("%s/m%d", rig.DistWallet, serial), 3, 5)
+				}
+				done <- err
+			}()
+			select {
+			case <-done:
+				answered++
+			case <-time.After(30 * time.Second):
+				say("REPEAT-HANG %d request %d of this kind was not answered within 30 s", ki, i+1)
+				return 3
+			}
+		}
+		// The canary: an ordinary generation, started on each instance in turn.
+		for _, id := range []uint64{1, 2, 3} {
+			serial++
+			done := make(chan error, 1)
+			go func() {
+				_, err := c.Generate(id, fmt.Sprintf("%s/ok%d", rig.DistWallet, serial), 2, 3)
+				done <- err
+			}()
+			select {
+			case err := <-done:
+				if err != nil {
+					say("REPEAT-NOTE %d canary on instance %d refused: %v", ki, id, err)
+				}
+			case <-time.After(30 * time.Second):
+				say("REPEAT-HANG %d after %d requests of this kind an ordinary generation started on instance %d was not answered within 30 s", ki, c20Repeats, id)
+				return 3
+			}
+		}
+		say("REPEAT-END %d %d", ki, answered)
+	}
+	say("REPEAT-COMPLETE")
+	return 0
+}
+
+// c20Repeat runs the child and turns what it reports into violations.
+func c20Repeat(run *ev.Run, tier string) (map[string]any, error) {
+	exe, err := os.Executable()
+	if err != nil {
+		return nil, err
+	}
+	cmd := exec.Command("sh", "-c", `ulimit -v 16777216; exec "$0" "$@"`, exe, "C20", tier)
+	cmd.Env = append(os.Environ(), "VERIF_C20_REPEAT=1")
+	var stderr strings.Builder
+	cmd.Stderr = &stderr
+	outb, werr := cmd.Output()
+	res := map[string]any{"kinds": c20RepeatKinds, "repeats_per_kind": c20Repeats}
+	begun, ended := -1, -1
+	complete := false
+	hang := ""
+	var notes []string
+	for _, line := range strings.Split(string(outb), "\n") {
+		switch {
+		case strings.HasPrefix(line, "WORKER-ERROR"):
+			return nil, fmt.Errorf("%s", line)
+		case strings.HasPrefix(line, "REPEAT-BEGIN "):
+			fmt.Sscanf(line, "REPEAT-BEGIN %d", &begun)
+		case strings.HasPrefix(line, "REPEAT-END "):
+			fmt.Sscanf(line, "REPEAT-END %d", &ended)
+		case strings.HasPrefix(line, "REPEAT-HANG "):
+			hang = strings.TrimPrefix(line, "REPEAT-HANG ")
+		case strings.HasPrefix(line, "REPEAT-NOTE "):
+			notes = append(notes, strings.TrimPrefix(line, "REPEAT-NOTE "))
+		case line == "REPEAT-COMPLETE":
+			complete = true
+		}
+	}
+	res["kinds_completed"] = ended + 1
+	res["canary_refusals"] = notes
+	if complete {
+		return res, nil
+	}
+	if begun < 0 {
+		return nil, fmt.Errorf("repeat phase died before it began: %v %s", werr, stderr.String())
+	}
+	kind := c20RepeatKinds[begun]
+	if hang != "" {
+		run.Violate("stops-answering:repeated:"+kind, fmt.Sprintf("three instances over the real gRPC transport, distributed generation requests of the kind %q sent %d times: %s", kind, c20Repeats, hang),
+			map[string]any{"check": "C20", "repeat_kind": kind})
+		return res, nil
+	}
+	tail := stderr.String()
+	for _, marker := range []string{"panic:", "fatal error:"} {
+		if i := strings.Index(tail, marker); i >= 0 {
+			tail = tail[i:]
+			break
+		}
+	}
+	if len(tail) > 500 {
+		tail = tail[:500]
+	}
+	run.Violate("crash:repeated:"+kind, fmt.Sprintf("three instances over the real gRPC transport, distributed generation requests of the kind %q: the process hosting them died: %s", kind, strings.ReplaceAll(tail, "\n", " | ")),
+		map[string]any{"check": "C20", "repeat_kind": kind})
+	return res, nil
+}
+
 // C20 checks that no expressible request crashes the daemon.
 func C20(tier string) int {
 	if v := os.Getenv("VERIF_C20_FROM"); v != "" {
 		var from int
 		fmt.Sscanf(v, "%d", &from)
 		return c20Worker(tier, from)
+	}
+	if os.Getenv("VERIF_C20_REPEAT") != "" {
+		return c20RepeatChild(tier)
 	}
 	run := ev.NewRun("C20", tier, "exploration")
 	cases, rpcs, _ := c20Cases(tier)
@@ -731,6 +874,11 @@ func C20(tier string) int {
 			map[string]any{"check": "C20", "case_index": last, "label": cs.Label, "tier": tier})
 		from = last + 1
 	}
+	repeat, err := c20Repeat(run, tier)
+	if err != nil {
+		run.HarnessErr = err
+		return run.Finish()
+	}
 	samples := []any{}
 	for i := 0; i < len(cases) && len(samples) < 6; i += len(cases)/6 + 1 {
 		samples = append(samples, map[string]any{"case": i, "request": cases[i].Label})
@@ -738,7 +886,7 @@ func C20(tier string) int {
 	run.Coverage = map[string]any{
 		"evaluations":         done,
 		"distinct_nontrivial": len(perRPC),
-		"rule":                "for every RPC of Signer, Lister, AccountManager and WalletManager (as an authorised client) and of the key-generation service (as a non-peer, and Prepare as a peer): the default well-formed message and every message with one field off default (two in thorough): bytes absent / present with length 0 (hand-encoded) / 1,3,4,31,32,33,48,96,4096; numbers 0,1,2^31,2^32-1,2^63,2^64-1; sub-messages absent; names empty, unknown, without slash, leading slash, regex meta, 80 kB; batches of 0,1,2,65,1000 entries incl. an empty entry; each marshalled, decoded by the real protobuf library and handed to the real handler in a worker process under a 16 GiB address-space limit; after each case an ordinary signing request must be answered; distinct = RPCs exercised",
+		"rule":                "for every RPC of Signer, Lister, AccountManager and WalletManager (as an authorised client) and of the key-generation service (as a non-peer, and Prepare as a peer): the default well-formed message and every message with one field off default (two in thorough): bytes absent / present with length 0 (hand-encoded) / 1,3,4,31,32,33,48,96,4096; numbers 0,1,2^31,2^32-1,2^63,2^64-1; sub-messages absent; names empty, unknown, without slash, leading slash, regex meta, 80 kB; batches of 0,1,2,65,1000 entries incl. an empty entry; each marshalled, decoded by the real protobuf library and handed to the real handler in a worker process under a 16 GiB address-space limit; after each case an ordinary signing request must be answered; plus, on three real instances that talk over the real gRPC transport (real API servers and real sender on loopback addresses, own certificate authority), five kinds of failing distributed-generation requests sent 40 times in a row each, after which an ordinary generation started on each instance must be answered; distinct = RPCs exercised",
 		"samples":             samples,
 		"exhaustive":          from >= len(cases),
 		"cases":               len(cases),
@@ -746,8 +894,9 @@ func C20(tier string) int {
 		"statuses":            statuses,
 		"per_rpc":             perRPC,
 		"worker_deaths":       crashes,
+		"repeated_failing_generations_over_grpc": repeat,
 	}
-	run.Assumptions = []string{"the gRPC transport itself (framing, size limits) is not exercised; messages are decoded by the protobuf library and handed to the handlers", "16 GiB address-space limit for the worker"}
+	run.Assumptions = []string{"client-facing handlers are driven after a protobuf encode/decode round trip, not through a gRPC connection (framing and size limits of the transport are not exercised); the instance-to-instance transport is real in the repeat phase", "16 GiB address-space limit for the worker"}
 	return run.Finish()
 }
 
